@@ -9,6 +9,7 @@ from __future__ import annotations
 import json
 
 from vlib import core, jsspenc as je
+from vlib import translate
 
 
 def gen_case(rng, quick):
@@ -36,6 +37,7 @@ def load_corpus(pid):
 
 
 def run(ctx):
+    translate.check_link(ctx, "C15")  # regenerate Gallina from /repo's current source; link lemmas coq/link/C15Link.v
     ctx.rule = ("corpus first; random valid instances (1-3 jobs, 1-3 machines, <=6 operations, durations 1-3; shapes: random, a single job, "
                 "only single-operation jobs, jobs on pairwise disjoint machines, one operation; unused machines) x limits (15% shorter than the "
                 "longest job, 10% equal to it, else slack 0-3 with <=14 qubits) x ALL bitstrings for <=10 qubits (96 sampled above); "
